@@ -65,6 +65,12 @@ def apply(it, fn, args, dest_ty, term, caller, depth):
     targs = fn.get("targs") or []
     name = path.split("::")[-1]
 
+    # ---- AVX2 intrinsics (E4)
+    if "arch::x86" in path or "core_arch::x86" in path:
+        from . import avx
+        r = avx.apply(it, fn, args)
+        if r is not NotImplemented:
+            return r
     # ---- sizes
     if path in ("core::mem::size_of", "core::intrinsics::size_of"):
         s = size_of(it, targs[0]) if targs else None
@@ -494,6 +500,10 @@ def iter_model(it, fn, name, args, dest_ty, term, caller, depth):
         dq = it.read(args[0].cell, args[0].path)
         if isinstance(dq, DequeV):
             return IterV("deque", (args[0], 0, len(dq.elems)))
+    if name == "chars" and len(args) == 1 and isinstance(args[0], Ref) and path.startswith("core::str"):
+        s_ = seq_of(it, args[0])
+        if s_ is not None:
+            return IterV("chars", (args[0], 0, s_[2]))
     if name == "chunks" and len(args) == 2 and isinstance(args[0], Ref) and isinstance(args[1], Int) and args[1].is_conc():
         s = seq_of(it, args[0])
         if s is not None:
@@ -512,6 +522,12 @@ def iter_model(it, fn, name, args, dest_ty, term, caller, depth):
         if isinstance(a, (VecV, Arr)):
             cell = Cell(a, "into_iter-owned")
             return IterV("owned", (Ref(cell), 0, len(a.elems)))
+    # ---- user-defined iterator structs: wrap them so that adapters / collect drive their own `next`
+    if (tr.endswith("iter::Iterator") or tr.endswith("iterator::Iterator")) and args and isinstance(args[0], Adt) \
+            and not args[0].name.endswith("ops::Range") and name in ITER_ADAPTERS + ("collect", "count") and name != "next":
+        nb = user_next_body(it, fn)
+        if nb is not None:
+            args = [IterV("user", (Cell(args[0], "user-iter"), nb))] + list(args[1:])
     # ---- adapters
     if tr.endswith("iter::Iterator") or tr.endswith("iterator::Iterator") or tr.endswith("DoubleEndedIterator"):
         if name in ITER_ADAPTERS and args and isinstance(args[0], (IterV, Adt)):
@@ -609,12 +625,31 @@ def iter_next(it, cur, term, caller, depth, back=False):
         if k == "owned":
             return nxt, some(it.read(eref.cell, eref.path))
         return nxt, some(eref)
+    if k == "chars":
+        ref, pos, end = cur.a
+        if pos >= end:
+            return cur, none()
+        b = it.read(ref.cell, ref.path + (("e", ref.off + pos),))
+        if not isinstance(b, Int):
+            raise Unsupported("chars over %r" % (b,))
+        hi = bv.t_is_const(b.getbits()[7])
+        if hi != 0:
+            raise Undecided("chars(): only ASCII text is modelled")
+        c = bv.cast(b, 32, False, "char")
+        c.tags = b.tags
+        return IterV(k, (ref, pos + 1, end)), some(c)
     if k == "chunks":
         ref, pos, n, size = cur.a
         if pos >= n:
             return cur, none()
         ln = min(size, n - pos)
         return IterV(k, (ref, pos + ln, n, size)), some(Ref(ref.cell, ref.path, ref.off + pos, ln))
+    if k == "user":
+        cell, nb = cur.a
+        item = it.call_body(nb, [Ref(cell)], depth + 1)
+        if not (isinstance(item, Adt) and item.variant is not None):
+            raise Undecided("user iterator returned %r" % (item,))
+        return cur, item
     if k == "map":
         inner, f = cur.a
         inner, item = iter_next(it, inner, term, caller, depth, back)
@@ -707,3 +742,22 @@ def deque_model(it, name, fn, args, dest_ty):
     if name == "is_empty":
         return mkbool(len(v.elems) == 0)
     return NotImplemented
+
+
+def user_next_body(it, fn):
+    """the `next` body of the iterator type a trait-default method (collect, map, …) is called on"""
+    targs = fn.get("targs") or []
+    if not targs:
+        return None
+    self_ty = targs[0]
+    if it.mono:
+        for tr in ("std::iter::Iterator", "core::iter::Iterator"):
+            b = it.facts.insts.get("<%s as %s>::next" % (self_ty, tr))
+            if b is not None:
+                return b
+    for b in it.facts.fns.values():
+        if b["path"].endswith("::next") and b.get("impl_trait", "").endswith("Iterator"):
+            ist = b.get("impl_self", "")
+            if ist == self_ty or ist.split("<")[0] == self_ty.split("<")[0]:
+                return b
+    return None
